@@ -4,18 +4,19 @@
 (* (key_set.keys is public).  After keys were removed, replaced under the  *)
 (* same kid (rotation) or appended, every lookup by kid must resolve in    *)
 (* the set as it is *now*: the key currently named by kid, else            *)
-(* invalid-key-id.                                                         *)
+(* invalid-key-id.  Producing *without* a kid picks one of the keys the set *)
+(* holds *now* (pick_random_key) - never a key that was rotated out.        *)
 (***************************************************************************)
 EXTENDS Naturals, Sequences, FiniteSets, TLC, Json
 CONSTANTS MaxOps, Dev
-DevNames == {"MemoisedLookup", "FirstKeyFallback"}
+DevNames == {"MemoisedLookup", "FirstKeyFallback", "MemoisedPick"}
 ASSUME Dev \subseteq DevNames
 Kids == {"a", "b", "c"}
-VARIABLES keys, memo, hist, nextMat
-vars == <<keys, memo, hist, nextMat>>
+VARIABLES keys, memo, pmemo, hist, nextMat
+vars == <<keys, memo, pmemo, hist, nextMat>>
 K(kid, mat) == [kid |-> kid, mat |-> mat]
 Init == /\ \E n \in 1..3 : keys = [i \in 1..n |-> K(CASE i = 1 -> "a" [] i = 2 -> "b" [] OTHER -> "c", i)]
-        /\ memo = [k \in Kids |-> 0] /\ hist = <<>> /\ nextMat = 4
+        /\ memo = [k \in Kids |-> 0] /\ pmemo = [n \in 0..3 |-> {}] /\ hist = <<>> /\ nextMat = 4
 
 Current(kid) == IF \E i \in 1..Len(keys) : keys[i].kid = kid
                 THEN keys[CHOOSE i \in 1..Len(keys) : keys[i].kid = kid /\ \A j \in 1..(i - 1) : keys[j].kid # kid].mat ELSE 0
@@ -25,18 +26,25 @@ LookupO(kid) == IF "MemoisedLookup" \in Dev /\ memo[kid] # 0 THEN memo[kid]
 Lookup(kid) == /\ Len(hist) < MaxOps
                /\ hist' = Append(hist, [op |-> "lookup", kid |-> kid, got |-> LookupO(kid), want |-> Current(kid), set |-> keys])
                /\ memo' = IF LookupO(kid) # 0 THEN [memo EXCEPT ![kid] = LookupO(kid)] ELSE memo
-               /\ UNCHANGED <<keys, nextMat>>
+               /\ UNCHANGED <<keys, nextMat, pmemo>>
 Remove(i) == /\ Len(hist) < MaxOps /\ i \in 1..Len(keys)
              /\ keys' = [j \in 1..(Len(keys) - 1) |-> IF j < i THEN keys[j] ELSE keys[j + 1]]
-             /\ hist' = Append(hist, [op |-> "remove", i |-> i]) /\ UNCHANGED <<memo, nextMat>>
+             /\ hist' = Append(hist, [op |-> "remove", i |-> i]) /\ UNCHANGED <<memo, pmemo, nextMat>>
 Replace(i) == /\ Len(hist) < MaxOps /\ i \in 1..Len(keys) /\ nextMat <= 6
               /\ keys' = [keys EXCEPT ![i].mat = nextMat] /\ nextMat' = nextMat + 1
-              /\ hist' = Append(hist, [op |-> "replace", i |-> i, mat |-> nextMat]) /\ UNCHANGED memo
+              /\ hist' = Append(hist, [op |-> "replace", i |-> i, mat |-> nextMat]) /\ UNCHANGED <<memo, pmemo>>
 AppendKey(kid) == /\ Len(hist) < MaxOps /\ Len(keys) < 3 /\ nextMat <= 6 /\ ~(\E i \in 1..Len(keys) : keys[i].kid = kid)
                   /\ keys' = Append(keys, K(kid, nextMat)) /\ nextMat' = nextMat + 1
-                  /\ hist' = Append(hist, [op |-> "append", kid |-> kid, mat |-> nextMat]) /\ UNCHANGED memo
-Next == (\E k \in Kids : Lookup(k) \/ AppendKey(k)) \/ (\E i \in 1..3 : Remove(i) \/ Replace(i))
+                  /\ hist' = Append(hist, [op |-> "append", kid |-> kid, mat |-> nextMat]) /\ UNCHANGED <<memo, pmemo>>
+\* layer O: pick_random_key - the materials a kid-less produce may draw from (the deviation keeps the candidate list per set size)
+Mats == {keys[i].mat : i \in 1..Len(keys)}
+Cands == IF "MemoisedPick" \in Dev /\ pmemo[Len(keys)] # {} THEN pmemo[Len(keys)] ELSE Mats
+Pick == /\ Len(hist) < MaxOps /\ Len(keys) > 0
+        /\ hist' = Append(hist, [op |-> "pick", cands |-> Cands, set |-> keys])
+        /\ pmemo' = [pmemo EXCEPT ![Len(keys)] = Cands] /\ UNCHANGED <<keys, memo, nextMat>>
+Next == Pick \/ (\E k \in Kids : Lookup(k) \/ AppendKey(k)) \/ (\E i \in 1..3 : Remove(i) \/ Replace(i))
 Spec == Init /\ [][Next]_vars
 ResolvesCurrentSet == \A i \in 1..Len(hist) : hist[i].op = "lookup" => hist[i].got = hist[i].want
+PicksFromCurrentSet == \A i \in 1..Len(hist) : hist[i].op = "pick" => hist[i].cands = {hist[i].set[j].mat : j \in 1..Len(hist[i].set)}
 Export == Len(hist) = MaxOps => PrintT("CASE " \o ToJson(hist))
 =============================================================================
